@@ -364,6 +364,19 @@ func c02Special() []refTree {
 			{Position: "nestedlink:204/b", Kind: "link", Form: "whole-file", Shape: "links-of-a-response-without-content-" + where, Ref: refB, Marker: "MARKLINKFILE"},
 		})
 	}
+	// a whole-file element that points back into the root document with "#/...": what it finds there belongs to the root,
+	// and the root component's own relative references resolve against the ROOT's location (a decoy sits beside the element)
+	rootB := refRootSkeleton()
+	dig(rootB, "components", "parameters")["Site"] = gen.S{"$ref": "params/p.json"}
+	dig(rootB, "components", "schemas")["X"] = gen.S{"type": "object", "title": "MARKROOTX", "properties": gen.S{"a": gen.S{"$ref": "defs.json#/components/schemas/Y"}}}
+	mk(rootB, map[string]gen.S{
+		"w/params/p.json":    {"name": "p", "in": "query", "description": "MARKPFILE", "schema": gen.S{"$ref": "#/components/schemas/X"}},
+		"w/defs.json":        lib("defs", gen.S{"Y": gen.S{"type": "string", "title": "MARKBESIDEROOT"}}),
+		"w/params/defs.json": lib("decoy", gen.S{"Y": gen.S{"type": "integer", "title": "DECOYBESIDEELEMENT"}}),
+	}, []refPlan{
+		{Position: "components.parameters.Site", Kind: "parameter", Form: "whole-file", Shape: "whole-file-element-pointing-back-into-root", Ref: "params/p.json", Marker: "MARKPFILE"},
+		{Position: "nestedpath:X/a", Kind: "schema", Form: "fragment", Shape: "whole-file-element-pointing-back-into-root", Ref: "defs.json#/components/schemas/Y", Marker: "MARKBESIDEROOT"},
+	})
 	// JSON pointer escapes in component names
 	root5 := refRootSkeleton()
 	dig(root5, "components", "schemas")["rate~1min"] = gen.S{"type": "object", "title": "MARKTILDE1"}
